@@ -123,6 +123,17 @@ def run(chk, replay=None):
     chk.require_model_ok("TasksMC", r, "contract rules imply: exactly once, get = returned value, finished only after return, no run after destroy, lifetimes alternate")
     from . import c01_mech
     c01_mech.run_models(chk, quick, which=("sched",))
+    # mechanism model of AsyncTask's member construction order: the repaired order (result member before the task member)
+    # holds for asynchronous and synchronous (Debug) task start; the order of the pinned code is the negative control
+    for rf, sy, expect in (("TRUE", "TRUE", True), ("TRUE", "FALSE", True), ("FALSE", "TRUE", False), ("FALSE", "FALSE", False)):
+        cfg = "AsyncTaskCtor_%s_%s.cfg" % (rf, sy)
+        r = tla.run_tlc(os.path.join(SPEC, "AsyncTaskCtor.tla"), os.path.join(SPEC, cfg), workers=2, timeout=300, deadlock=True)
+        if expect:
+            chk.require_model_ok("AsyncTaskCtor/" + cfg, r, "result member constructed before the task starts: no assignment to raw storage, get() yields the value")
+        else:
+            if r.ok:
+                raise InfraError("negative control %s was not refuted" % cfg)
+            chk.add_model("AsyncTaskCtor/" + cfg, r, "negative control (task member declared before the result member) -> refuted (%s)" % r.violated)
 
     scen = funcheck.gen_cases(chk, SPEC, "TasksGen", "TasksGen.cfg", "c02-gen", what="scenario space")
     scen.sort(key=lambda s: json.dumps(s, sort_keys=True))
